@@ -62,7 +62,7 @@ Definition precheck (c : chainfacts) (t : txfacts) : option aerr :=
     else None.
 
 (* the whole decision, with the pool as in Mempool/Model.v *)
-Definition admit_tx (c : chainfacts) (t : txfacts) (bal : payer -> N) (s : pool) (x : tx) : (aerr + unit) * pool :=
+Definition accept_tx (c : chainfacts) (t : txfacts) (bal : payer -> N) (s : pool) (x : tx) : (aerr + unit) * pool :=
   match precheck c t with
   | Some e => (inl e, s)
   | None =>
@@ -73,7 +73,7 @@ Definition admit_tx (c : chainfacts) (t : txfacts) (bal : payer -> N) (s : pool)
       end
   end.
 
-(* everything the property asks of an admitted transaction *)
+(* everything the property asks of an accepted transaction *)
 Definition admissible (c : chainfacts) (t : txfacts) : Prop :=
   f_sysfee t <= c_max_block_sysfee c
   /\ f_script_ok t = true
